@@ -4,7 +4,7 @@ set -u
 patch="$1"; prop="$2"; tier="${3:-quick}"
 cd /repo || exit 2
 if ! git diff --quiet; then echo "repo dirty"; exit 2; fi
-git apply "$patch" || { echo "patch does not apply"; exit 2; }
+git apply "$patch" || { echo "patch does not apply (see applies_at in its meta.json)"; git checkout HEAD -- . ; git reset -q; exit 2; }
 cd /verif
 cp -f evidence/$prop.json /tmp/evidence_$prop.bak 2>/dev/null
 ./check "$prop" --tier "$tier"; rc=$?
